@@ -357,6 +357,72 @@ def resolve_tie(ctx, ir):
     return dist
 
 
+def normalize_tie(ctx):
+    """_normalize_io_names vs IoNormalize.normalize (ASCII entries; blank = space/tab only)"""
+    from jax2onnx import user_interface as ui
+    rng = ctx.rng
+    n_cases = 300 if ctx.tier == "quick" else 3000
+    pool = ["x", "y", "z", " y ", "y ", "in_0", "out", "", " ", "  ", "\t", " \t ", 5, None, b"x", 1.5, ("a",)]
+    rows, dist = [], {"ok": 0, "NotStr": 0, "Blank": 0, "Dup": 0, "other": 0}
+    fixed = [[], ["x"], ["x", "x"], ["x", " x"], [" "], ["a", 5], [5, ""], ["", 5], ["a", "b", "a", ""], ["a", "", "a"]]
+    for ci in range(n_cases):
+        names = fixed[ci] if ci < len(fixed) else [rng.choice(pool if rng.random() < 0.5 else pool[:7]) for _ in range(rng.randint(0, 5))]
+        try:
+            got = ui._normalize_io_names(list(names), kind="input_names")
+            real = ("ok", list(got))
+            if list(got) != list(names):
+                ctx.violate("custom-names:normalize-rewrites", f"_normalize_io_names({names!r}) returns {got!r}: user names are not applied exactly",
+                            {"kind": "normalize", "names": [n if isinstance(n, str) else None for n in names]})
+        except TypeError as exc:
+            mt = re.search(r"\[(\d+)\] must be a string", str(exc))
+            real = ("NotStr", int(mt.group(1))) if mt else ("other", str(exc))
+        except ValueError as exc:
+            mt = re.search(r"\[(\d+)\] must be a non-empty string", str(exc))
+            md = re.search(r"duplicate '(.*)'\.$", str(exc), re.S)
+            real = ("Blank", int(mt.group(1))) if mt else ("Dup", md.group(1)) if md else ("other", str(exc))
+        dist[real[0]] += 1
+        if real[0] == "ok" and (len(set(real[1])) != len(real[1]) or any(not isinstance(n, str) or not n.strip() for n in real[1])):
+            ctx.violate("custom-names:normalize-accepts-bad-list", f"_normalize_io_names({names!r}) accepts a list with a duplicate / blank / non-string entry",
+                        {"kind": "normalize", "names": [n if isinstance(n, str) else None for n in names]})
+        rows.append((names, real))
+    seen = set()
+    ctx.violations[:] = [v for v in ctx.violations if not (v["key"].startswith("custom-names:normalize") and (v["key"] in seen or seen.add(v["key"])))]
+
+    def slit(x):
+        return '"' + x + '"'
+
+    def rl(r):
+        if r[0] == "ok":
+            return "Some (inl [" + "; ".join(slit(n) for n in r[1]) + "])"
+        if r[0] == "Dup":
+            return f"Some (inr (Dup {slit(r[1])}))"
+        return f"Some (inr ({r[0]} {r[1]}%nat))" if r[0] in ("NotStr", "Blank") else "None"
+    head = common.CASES_HEADER + ("From J2O Require Import IoNormalize.\nOpen Scope string_scope.\n"
+        "Definition seq_ (a b : list string) : bool := (Nat.eqb (List.length a) (List.length b)) && forallb (fun p => String.eqb (fst p) (snd p)) (combine a b).\n"
+        "Definition zcase_ := (list (option string) * option (list string + norm_err))%type.\n"
+        "Definition zcmp_ (c : zcase_) : bool := let '(ns, r) := c in match normalize ns, r with\n"
+        "  | inl a, Some (inl b) => seq_ a b | inr (NotStr i), Some (inr (NotStr j)) => Nat.eqb i j\n"
+        "  | inr (Blank i), Some (inr (Blank j)) => Nat.eqb i j | inr (Dup a), Some (inr (Dup b)) => String.eqb a b | _, _ => false end.\n")
+    txt = head
+    chunks = [rows[i:i + 150] for i in range(0, len(rows), 150)]
+    for k, ch in enumerate(chunks):
+        txt += f"Definition zs{k} : list zcase_ := [\n" + ";\n".join(
+            "([" + "; ".join(f"Some {slit(n)}" if isinstance(n, str) else "None" for n in names) + f"], {rl(real)})" for names, real in ch) + "].\n"
+        txt += f"Eval vm_compute in bad_idx_ zcmp_ 0 zs{k}.\n"
+    ok, out = common.coq_eval_file(ctx, "c05_normalize_cases", txt)
+    lists = re.findall(r"=\s*(\[[^\]]*\]|nil)\s*:\s*list nat", out.replace("\n", " "))
+    if not ok or len(lists) != len(chunks):
+        ctx.oblige("tie:IoNormalize.normalize-vs-real-_normalize_io_names", False, "tie", out[-1500:])
+    else:
+        bad = []
+        for k, ch in enumerate(chunks):
+            l = lists[k]
+            bad += [ch[int(t.replace("%nat", ""))] for t in ([] if l in ("nil", "[]") else l.strip("[]").split(";")) if t.strip()]
+        ctx.oblige(f"tie:IoNormalize.normalize-equals-real-_normalize_io_names({len(rows)} lists)", not bad, "tie",
+                   "" if not bad else "model and implementation differ on " + "; ".join(repr(b) for b in bad[:5]))
+    return dist
+
+
 def run(ctx):
     import jax
     import onnx_ir as ir
@@ -520,6 +586,7 @@ def run(ctx):
     names_cov = names_tie(ctx, ir)
     names_cov["aliasing"] = alias_tie(ctx, ir)
     names_cov["resolve_positional"] = resolve_tie(ctx, ir)
+    names_cov["normalize"] = normalize_tie(ctx)
     ctx.coverage.update({"custom_names": names_cov, "evaluations": len(rows) + len(items), "distinct_nontrivial": len(items),
                          "rule": "prune: random graphs over a pool of 19 input names x used/unused; interface: 17 programs (unused inputs, constant/duplicated/aliased outputs, "
                                  "pytrees, int/bool/f16, symbolic dims, 4-D images) x {single,double} x {default,custom names} x layout flags, checked against jax.eval_shape",
